@@ -175,6 +175,53 @@ def run_metamodel_case(name, via):
     return not bad, {"metamodel": name, "via": via, "failures": bad[:3], "output_tail": out[-300:] if bad else None}
 
 
+REPO_GRAMMAR = "Model: imports*=Import items*=Item; Import: 'import' importURI=STRING; Item: 'i' name=ID ('r' ref=[Item])?;"
+REPO_CASES = [(p, sc, via) for p in ("FQNImportURI", "PlainNameImportURI", "PlainNameGlobalRepo") for sc in ("str-noimport", "file-noimport", "file-import")
+              for via in ("api", "api-file", "gen") if not (p == "PlainNameGlobalRepo" and sc == "file-import")]
+
+
+def run_repo_case(prov, scenario, via):
+    """models of a metamodel whose scope provider keeps a model repository: without imports the repository is empty"""
+    from textx import metamodel_from_str, get_children, generator_for_language_target
+    from textx.scoping import providers
+    from textx.export import model_export_to_file, model_export
+
+    d = os.path.join(core.rundir(), "c29r-%d" % os.getpid())
+    os.makedirs(d, exist_ok=True)
+    mm = metamodel_from_str(REPO_GRAMMAR)
+    mm.register_scope_providers({"*.*": getattr(providers, prov)()})
+    with open(os.path.join(d, "lib.m"), "w") as f:
+        f.write("i a i b r a")
+    main = os.path.join(d, "main.m")
+    text = 'import "lib.m" i x r a i y r x' if scenario == "file-import" else "i x i y r x"
+    with open(main, "w") as f:
+        f.write(text)
+    m = mm.model_from_str(text) if scenario == "str-noimport" else mm.model_from_file(main)
+    models = [m] + [x for x in m._tx_model_repository.all_models if x is not m] if hasattr(m, "_tx_model_repository") else [m]
+    objs = [o for x in models for o in get_children(lambda _: True, x)]
+    if via == "api":
+        f = io.StringIO()
+        model_export_to_file(f, m)
+        out = f.getvalue()
+    elif via == "api-file":
+        model_export(m, os.path.join(d, "out.dot"))
+        out = open(os.path.join(d, "out.dot")).read()
+    else:
+        if scenario == "str-noimport":
+            m._tx_filename = main  # the generator derives the output name from the model's file name
+        generator_for_language_target("any", "dot")(mm, m, d, True, False)
+        out = open(os.path.join(d, "main.dot")).read()
+    bad = check_dot(out, len(objs), "repo")
+    try:
+        nodes = dotparse.parse_dot(out).nodes
+        for o in get_children(lambda _: True, m):
+            if str(id(o)) not in nodes:
+                bad.append(("no node for object", getattr(o, "name", type(o).__name__)))
+    except dotparse.DotError:
+        pass
+    return not bad, {"provider": prov, "scenario": scenario, "via": via, "failures": bad[:3], "dot": out[-300:] if bad else None}
+
+
 def strings(L):
     for n in range(1, L + 1):
         for t in itertools.product(CHARS, repeat=n):
@@ -189,7 +236,7 @@ def work(arg):
     for c in cases:
         try:
             with watchdog(30):
-                ok, obs = run_model_case(c[1], c[2]) if c[0] == "model" else run_metamodel_case(c[1], c[2])
+                ok, obs = run_model_case(c[1], c[2]) if c[0] == "model" else run_repo_case(*c[1:]) if c[0] == "repo" else run_metamodel_case(c[1], c[2])
         except Exception as e:
             import traceback
 
@@ -207,17 +254,19 @@ def run(ctx):
     if ctx.tier == "quick":
         cases += [("model", w, s) for w in ("object-name", "mixed-list") for s in strings(3) if len(s) == 3]
     cases += [("metamodel", n, via) for n in METAMODELS for via in ("api-dot", "gen-dot", "api-plantuml", "gen-plantuml")]
+    cases += [("repo",) + c for c in REPO_CASES]
     ctx.pmap(work, [cases[i:i + 60] for i in range(0, len(cases), 60)])
     return {
         "rule": "model cases = (position in %s, string): all strings up to %d characters over %r not ending in a backslash; metamodel cases = %s x "
-                "{API, registered generator} x {DOT, PlantUML}; every case is distinct and exports a real model/metamodel" % (WHERE, L, CHARS, list(METAMODELS)),
+                "{API, registered generator} x {DOT, PlantUML}; repository cases = (provider keeping a model repository, model from string / file without imports / "
+                "file with an import, export through the API to a stream / to a file / the any->dot generator); every case is distinct and exports a real model/metamodel" % (WHERE, L, CHARS, list(METAMODELS)),
         "exhaustive": True, "cases": len(cases),
     }, ["the expected node count is the number of objects reachable by containment (get_children) resp. the number of common and abstract classes"]
 
 
 def replay(p):
     c = p["case"]
-    ok, obs = run_model_case(c[1], c[2]) if c[0] == "model" else run_metamodel_case(c[1], c[2])
+    ok, obs = run_model_case(c[1], c[2]) if c[0] == "model" else run_repo_case(*c[1:]) if c[0] == "repo" else run_metamodel_case(c[1], c[2])
     obs = {k: v for k, v in obs.items() if k not in ("dot", "output_tail")}
     obs["failures"] = [[re.sub(r"\b\d{9,}\b", "<id>", str(x)) for x in f] for f in obs["failures"]]
     return ok, obs
